@@ -245,11 +245,20 @@ def check(pid, tier, seed, replay=None):
         for ri, k, e, sig in bads:
             ent = {x["entry"]: (bytes.fromhex(x["raw"]).decode("utf-8", "replace")[:60] if not x["raw"].startswith("line:") else x["raw"][:80], x["ok"], x["kind"], x["field"]) for x in e["entries"]}
             v.violation("%s %s/%s: %s" % (e["ttype"], e["class"], e["setting"], json.dumps(ent)[:500]), {"property": pid, "case": byid.get(e["id"]), "record": e})
+        esc = {}
+        if not replay:
+            # the escaping loop itself: JsonString.tla (transcription model-checked against its contract) on real output
+            from checks import escape
+            eviol, edrift, en, estats = escape.run(sc, tier, seed, binary=False)
+            for e in eviol:
+                v.violation("escaping of %s through %s: wrote %s - not clean / not valid UTF-8 / does not un-escape to the input" % (bytes(e["in"]).hex(), e["via"], e["out"][:60]),
+                            {"property": pid, "kind": "escape", "record": e})
+            esc = dict(estats, records=en, drift_from_transcription=edrift)
         n = sum(len(x) - 1 for x in shard_lines)
         nent = sum(len(json.loads(ln)["entries"]) for x in shard_lines[:1] for ln in x[1:])
         samples = [json.loads(x[1]) for x in shard_lines[:2] if len(x) > 1]
         cov = {"states": max(2, r.distinct), "transitions": max(1, r.generated), "traces_validated_against_impl": n, "samples": samples,
-               "abstract_cases": len(abstract), "concrete_cases": n, "exhaustive": False,
+               "abstract_cases": len(abstract), "concrete_cases": n, "escaping": esc, "exhaustive": False,
                "scope": "every (type, value class, setting) of ValueDoc.tla through every entry point of Carries; all byte strings of length <= %d over 20 escaping / UTF-8 class representatives through Str, Bytes and AnErr; random integers per width; random float32/float64 bit patterns" % (3 if thorough else 2),
                "checker_cmd": "tlc ValueDoc.tla (tables, case matrix); tlc ValueDocTrace.tla"}
         write_evidence(pid, tier, seed, "model_checking", cov, time.time() - t0, len(v.violations),
